@@ -171,7 +171,7 @@ package perunio
 //@ func verifRoundTripString
 //@   requires w != nil && r != nil && streaming()
 //@   modifies *
-//@   inlines Encode
+//@   inlines Encode, decodeString
 //@   ensures encErr == nil && linked(w, r, old(wpos(w)), old(rpos(r)), wpos(w) - old(wpos(w))) && !rfail(r) ==> decErr == nil
 //@   ensures encErr == nil && decErr == nil && linked(w, r, old(wpos(w)), old(rpos(r)), wpos(w) - old(wpos(w))) ==>
 //@     y == x && rpos(r) - old(rpos(r)) == wpos(w) - old(wpos(w))
